@@ -247,6 +247,12 @@ def finite_obs(L, ints):
         obs.append(("sum", "sum(s)", mcanon(sum(L))))
         if n:
             obs.append(("max", "max(s)", mcanon(max(L))))
+    # order of observations: the variable has been measured above; a stream obtained from it by dropping everything / all but
+    # one element must report its own length and truthiness
+    obs.append(("drop_all_after_len", "(\\t -> [len(t), (if (t) 1 else 0), list(t)])(s drop len(s))", mcanon([0, 0, []])))
+    obs.append(("slice_all_after_len", "(\\t -> [len(t), (if (t) 1 else 0), ls(t)])(s[%d:])" % n, mcanon([0, 0, []])))
+    if n:
+        obs.append(("drop_all_but_one", "(\\t -> [len(t), (if (t) 1 else 0), list(t)])(s drop %d)" % (n - 1), mcanon([1, 1, [L[-1]]])))
     obs.append(("len_vs_list", "len(s) == len(list(s))", mcanon(1)))
     obs.append(("list_again", "list(s)", mcanon(L)))
     return obs
